@@ -91,6 +91,21 @@ CHECKS = {
              "every table template and every python function that pushes or "
              "pops a list. Exception edges excluded.",
         ref="DESIGN.md §3 C12"),
+    "C13": dict(
+        technique="field-write inventory and typestate rules for the "
+                  "LazyList memo cache (writers, sources, escapes) over the "
+                  "whole package",
+        category="other",
+        text="Clause-level: decides 'observations never change the sequence "
+             "a lazy list denotes' via the cache discipline - every write to "
+             "*.generated anywhere in the package is classified (constructor "
+             "reset, __next__ appending the pulled item, __setitem__, "
+             "extension from raw_object that does not iterate self), "
+             "raw_object is set once, the cache does not escape, __next__ "
+             "caches exactly what it returns, __iter__ resumes after the "
+             "cached prefix, observers pull only through next(self). Does not "
+             "decide the values observers return.",
+        ref="DESIGN.md §3 C13"),
     "C18": dict(
         technique="taint / sanitiser analysis: abstract interpretation of "
                   "transpile.py in a template domain with sanitiser classes, "
